@@ -12,6 +12,11 @@ mod usw {
     pub const UNAME: &str = "SW";
     include!("us_body.rs");
 }
+mod usb {
+    pub type P = vrt::track::TrackedB<1>;
+    pub const UNAME: &str = "SB";
+    include!("us_body.rs");
+}
 mod ut {
     pub type EE = vrt::track::Tracked<4>;
     pub const UNAME: &str = "T";
@@ -87,6 +92,7 @@ fn main() {
     let j = match uni.as_str() {
         "S" => run::<us::US>(&args),
         "SW" => run::<usw::US>(&args),
+        "SB" => run::<usb::US>(&args),
         "T" => run::<ut::UT>(&args),
         "TW" => run::<utw::UT>(&args),
         "L" => run::<ul::UL>(&args),
